@@ -389,7 +389,7 @@ class Instrs(CallsMixin):
         ft = types.elem(ins['type'])
         loc = st.field_loc(base, ins['fname'], ft)
         hd = V.interior_handle(loc)
-        st.assume(hd < 0)   # handles of interior pointers are negative: never nil, never an object reference
+        st.assume(z3.And(hd < 0, ops.uf('ptrbase', I, I)(hd) == loc.ref))   # handles of interior pointers are negative: never nil, never an object reference
         self.setreg(st, ins, Val(ins['type'], {(): hd}, loc=loc))
 
     def op_Index(self, st, fr, b, i, ins):
@@ -430,7 +430,7 @@ class Instrs(CallsMixin):
             raise OutOfSubset('IndexAddr on ' + k)
         loc = Loc(loc.fam, loc.tk, loc.ref, loc.steps, et)
         hd = V.interior_handle(loc)
-        st.assume(hd < 0)
+        st.assume(z3.And(hd < 0, ops.uf('ptrbase', I, I)(hd) == loc.ref))
         self.setreg(st, ins, Val(ins['type'], {(): hd}, loc=loc))
 
     def op_Store(self, st, fr, b, i, ins):
@@ -794,6 +794,10 @@ class Instrs(CallsMixin):
                 and types.kind(ev.st.regs[e[1]].t) == 'ptr':
             # a variable captured by reference: the cell it lives in
             return ModTarget('loc', loc=st.ptr_loc(ev.st.regs[e[1]]))
+        if e[0] == 'deref':
+            # *p: the variable p points to (for a pointer to a slice: the slice header, not the
+            # elements it refers to)
+            return ModTarget('loc', loc=ev.loc(e))
         try:
             v = ev.ev(e)
         except SpecError:
